@@ -716,6 +716,10 @@ class XmlPeriod(UserString):
 
         return NotImplemented
 
+    def __hash__(self) -> int:
+        """Return the hash of the period, consistent with equality."""
+        return hash(self._period)
+
 
 class XmlHexBinary(bytes):
     """Subclass bytes to infer base16 format.
